@@ -644,6 +644,11 @@ impl File {
         self.failed_runid = None;
         self.is_override = false;
         self.is_generated = false;
+        // A source has no checksum.  One left over from the file's time as a
+        // target describes bytes we generated then; if it were kept and the
+        // file became a target again, regenerating those bytes would look
+        // "unchanged" to dependents built from the hand-made version.
+        self.csum = String::new();
         Ok(())
     }
 
